@@ -269,6 +269,16 @@ class DataHeader(BitsInterface, BytesInterface):
 
     @staticmethod
     def from_bits(bits: bitarray) -> "DataHeader":
+        header: DataHeader = DataHeader._from_bits(bits)
+        # the verdict is about the received bits: a nulled CRC is still regenerated,
+        # but neither it nor normalised (reserved / folded) fields are vouched for
+        header.crc_ok = CRC16.check(
+            bits[:80].tobytes(), ba2int(bits[80:96]), CrcMasks.DataHeader
+        )
+        return header
+
+    @staticmethod
+    def _from_bits(bits: bitarray) -> "DataHeader":
         dpf: DataPacketFormats = DataPacketFormats.from_bits(bits[4:8])
         if dpf == DataPacketFormats.DataPacketConfirmed:
             return DataHeader(
